@@ -83,7 +83,10 @@ use vh::{cmp::json_match, util::*};
 type Key = MarketDataInstrument;
 type Out = Result<MarketEvent<Key, OrderBookEvent>, DataError>;
 
-const INSTR: [(&str, &str, &str); 2] = [("i1", "btc", "BTCUSDT"), ("i2", "eth", "ETHUSDT")];
+const INSTR: [(&str, &str, &str); 3] = [("i1", "btc", "BTCUSDT"), ("i2", "eth", "ETHUSDT"), ("i3", "sol", "SOLUSDT")];
+
+/// the six orders in which three snapshots / subscriptions can be given
+const ORDERS: [[usize; 3]; 6] = [[0, 1, 2], [0, 2, 1], [1, 0, 2], [1, 2, 0], [2, 0, 1], [2, 1, 0]];
 
 #[derive(Clone, Copy, PartialEq, Debug)]
 enum Rule {
@@ -257,6 +260,9 @@ struct ConnPlan {
     pre: Vec<String>,
     /// frames sent between the first and the last expected confirmation
     buf: Vec<String>,
+    /// order of the instruments in the snapshot slice (modes direct / stream: per connection) and of
+    /// the subscriptions (mode init: fixed when the stream is opened)
+    order: [usize; 3],
 }
 
 trait Link {
@@ -671,14 +677,15 @@ mod looped {
     // -- the consumer's stream: init_market_stream's chain around the real MarketStream::init ----------
     pub type Consumer = Pin<Box<dyn futures::Stream<Item = Event<ExchangeId, Out>>>>;
 
-    async fn open<X, W>(rule: Rule) -> Result<Consumer, DataError>
+    async fn open<X, W>(rule: Rule, order: [usize; 3]) -> Result<Consumer, DataError>
     where
         X: Connector + Send + Sync + 'static,
         W: ExchangeTransformer<X, Key, OrderBooksL2> + Send + Unpin + 'static,
         W::Input: serde::de::DeserializeOwned,
         Subscription<X, Key, OrderBooksL2>: Identifier<X::Channel> + Identifier<X::Market>,
     {
-        let subs: Vec<Subscription<X, Key, OrderBooksL2>> = INSTR.iter().map(|(_, b, _)| Subscription::new(X::default(), rule.key(b), OrderBooksL2)).collect();
+        // (the snapshot fetcher answers in subscription order, as the Binance fetchers do)
+        let subs: Vec<Subscription<X, Key, OrderBooksL2>> = order.iter().map(|&j| Subscription::new(X::default(), rule.key(INSTR[j].1), OrderBooksL2)).collect();
         let key = StreamKey::new("market_stream", X::ID, Some("l2"));
         let policy = ReconnectionBackoffPolicy { backoff_ms_initial: 125, backoff_multiplier: 2, backoff_ms_max: 60000 };
         let stream = init_reconnecting_stream(move || {
@@ -736,6 +743,7 @@ mod looped {
 
     impl Link for InitLink {
         fn connect(&mut self, plan: ConnPlan) -> Result<Vec<Seen>, String> {
+            let order = plan.order;
             script_snapshots(plan.snap_payloads);
             let (cmd_tx, cmd_rx) = mpsc::unbounded_channel();
             self.cmd_tx = Some(cmd_tx);
@@ -753,10 +761,10 @@ mod looped {
                 let opened = catch(|| {
                     rt().block_on(async move {
                         match (rule, multi) {
-                            (Rule::Spot, false) => open::<Binance<LoopSpot>, Wrap<Binance<LoopSpot>, BinanceSpotOrderBooksL2Transformer<Key>>>(rule).await,
-                            (Rule::Futures, false) => open::<Binance<LoopFutures>, Wrap<Binance<LoopFutures>, BinanceFuturesUsdOrderBooksL2Transformer<Key>>>(rule).await,
-                            (Rule::Spot, true) => open::<MultiSpot, Wrap<MultiSpot, BinanceSpotOrderBooksL2Transformer<Key>>>(rule).await,
-                            (Rule::Futures, true) => open::<MultiFutures, Wrap<MultiFutures, BinanceFuturesUsdOrderBooksL2Transformer<Key>>>(rule).await,
+                            (Rule::Spot, false) => open::<Binance<LoopSpot>, Wrap<Binance<LoopSpot>, BinanceSpotOrderBooksL2Transformer<Key>>>(rule, order).await,
+                            (Rule::Futures, false) => open::<Binance<LoopFutures>, Wrap<Binance<LoopFutures>, BinanceFuturesUsdOrderBooksL2Transformer<Key>>>(rule, order).await,
+                            (Rule::Spot, true) => open::<MultiSpot, Wrap<MultiSpot, BinanceSpotOrderBooksL2Transformer<Key>>>(rule, order).await,
+                            (Rule::Futures, true) => open::<MultiFutures, Wrap<MultiFutures, BinanceFuturesUsdOrderBooksL2Transformer<Key>>>(rule, order).await,
                         }
                     })
                 })?;
@@ -873,8 +881,8 @@ impl Bench {
     /// (Re)connect with snapshots `snap[i]` / `books[i]` (spec units); `pre` / `buf` = frames [{i,k}] the
     /// venue sends before the first / between the first and last subscription confirmation (mode init).
     /// Returns (anomaly, what the consumer received in order).
-    fn connect(&mut self, snap: &Value, books: &Value, pre: &Value, buf: &Value) -> (Option<String>, Vec<Value>) {
-        let snaps: Vec<_> = INSTR.iter().map(|(n, b, _)| snapshot_event(self.rule, self.un, b, i(snap, n), &books[*n])).collect();
+    fn connect(&mut self, snap: &Value, books: &Value, pre: &Value, buf: &Value, order: [usize; 3]) -> (Option<String>, Vec<Value>) {
+        let snaps: Vec<_> = order.iter().map(|&j| INSTR[j]).map(|(n, b, _)| snapshot_event(self.rule, self.un, b, i(snap, n), &books[n])).collect();
         let snap_payloads = INSTR.iter().map(|(n, _, sym)| (sym.to_string(), snapshot_payload(self.rule, self.un, i(snap, n), &books[*n]))).collect();
         for (n, _, _) in INSTR {
             self.seqs.insert(n.to_string(), Sequencer::new(self.rule, self.un.base + i(snap, n) as u64));
@@ -889,7 +897,7 @@ impl Bench {
                 failed = Some((name.clone(), i(f, "k")));
             }
         }
-        let plan = ConnPlan { snaps, snap_payloads, pre: pre_f.into_iter().map(|x| x.1).collect(), buf: buf_f.into_iter().map(|x| x.1).collect() };
+        let plan = ConnPlan { snaps, snap_payloads, pre: pre_f.into_iter().map(|x| x.1).collect(), buf: buf_f.into_iter().map(|x| x.1).collect(), order };
         match self.link.connect(plan) {
             Err(p) => (Some(format!("panic / failure: {p}")), vec![]),
             Ok(seen) => {
@@ -979,7 +987,23 @@ fn variant(e: &DataError) -> String {
 #[allow(clippy::too_many_arguments)]
 fn line(a: &str, i_: &str, k: i64, out: &str, err: &str, term: bool, world: Value, snap: Value, pre: &Value, buf: &Value, emit: &[Value], post: Value) -> Value {
     json!({"a": a, "i": i_, "k": k, "out": out, "err": err, "term": term, "world": world, "snap": snap,
-           "pre": pre, "buf": buf, "emit": emit, "post": post})
+           "pre": pre, "buf": buf, "emit": emit, "post": post, "order": []})
+}
+
+fn with_order(mut l: Value, order: [usize; 3]) -> Value {
+    l["order"] = json!(order);
+    l
+}
+
+/// the order of the snapshots / subscriptions for this connection: given by the scenario step (replays),
+/// else scenario n starts with permutation n mod 6 and every later connection draws one
+fn order_of<R: Rng>(step: Option<&Value>, n: usize, first: bool, rng: &mut R) -> [usize; 3] {
+    if let Some(o) = step.and_then(|s| s.get("order")).and_then(|o| o.as_array()) {
+        if o.len() == 3 {
+            return [o[0].as_u64().unwrap_or(0) as usize % 3, o[1].as_u64().unwrap_or(1) as usize % 3, o[2].as_u64().unwrap_or(2) as usize % 3];
+        }
+    }
+    if first { ORDERS[n % 6] } else { ORDERS[rng.random_range(0..6)] }
 }
 
 fn reset_line(rule: Rule, expected: i64, world: &Value) -> Value {
@@ -1029,6 +1053,7 @@ struct Counts {
     first_admitted: usize,
     longest_chain: usize,
     connect: usize,
+    level_less: usize,
     pre_frames: usize,
     buffered_frames: usize,
 }
@@ -1079,7 +1104,8 @@ fn run(args: &Args) {
                         None => json!([]),
                     };
                     let pre = bench.post();
-                    let (anomaly, emit) = bench.connect(&snap, &books, &pre_frames, &buf);
+                    let order = order_of(Some(step), n, a == "Init", &mut rng);
+                    let (anomaly, emit) = bench.connect(&snap, &books, &pre_frames, &buf, order);
                     chain = 0;
                     counts.connect += 1;
                     counts.pre_frames += pre_frames.as_array().map(|a| a.len()).unwrap_or(0);
@@ -1088,8 +1114,8 @@ fn run(args: &Args) {
                         counts.reinit += 1;
                     }
                     let post = bench.post();
-                    trace.line(&line("Connect", "", 0, anomaly.as_deref().map(|_| "Anomaly").unwrap_or(""), anomaly.as_deref().unwrap_or("none"),
-                                     false, json!(0), snap.clone(), &pre_frames, &buf, &emit, post.clone()));
+                    trace.line(&with_order(line("Connect", "", 0, anomaly.as_deref().map(|_| "Anomaly").unwrap_or(""), anomaly.as_deref().unwrap_or("none"),
+                                     false, json!(0), snap.clone(), &pre_frames, &buf, &emit, post.clone()), order));
                     if let Some(an) = anomaly {
                         if an.contains("MarketStream::init failed") {
                             init_failures += 1;
@@ -1117,6 +1143,9 @@ fn run(args: &Args) {
                     let (nm, kk) = (s(step, "i"), i(step, "k"));
                     let ev = &world[nm]["events"][(kk - 1) as usize];
                     let pre = bench.post();
+                    if ev["b"].as_array().is_some_and(|a| a.is_empty()) && ev["a"].as_array().is_some_and(|a| a.is_empty()) {
+                        counts.level_less += 1;
+                    }
                     let (out, err, term, emit) = bench.deliver(nm, kk, ev);
                     let post = bench.post();
                     trace.line(&line("Deliver", nm, kk, &out, &err, term, json!(0), json!(0), &json!([]), &json!([]), &emit, post.clone()));
@@ -1190,7 +1219,7 @@ fn summary(mode: &str, scenarios: usize, steps: usize, failed: usize, lines: usi
     json!({"mode": mode, "scenarios": scenarios, "steps": steps, "failed": failed, "trace_lines": lines,
            "arms": {"dropped": c.dropped, "admitted": c.admitted, "error": c.error, "reinit": c.reinit,
                     "first_updates_admitted": c.first_admitted, "longest_admitted_chain": c.longest_chain,
-                    "connections": c.connect, "frames_before_confirmation": c.pre_frames, "frames_buffered": c.buffered_frames}})
+                    "connections": c.connect, "level_less_updates_delivered": c.level_less, "frames_before_confirmation": c.pre_frames, "frames_buffered": c.buffered_frames}})
 }
 
 // ---------------------------------------------------------------------------------------------
@@ -1221,9 +1250,17 @@ fn evolution<R: Rng>(rng: &mut R, name: &str, n_events: usize) -> Evolution {
     for k in 1..=n_events {
         let first = id + 1;
         let width = [1, 1, 2, 2, 3, 4][rng.random_range(0..6)];
+        // one event in six carries no level at all (Binance sends such depth updates); other events may
+        // contain single ids that change no level
+        let level_less = rng.random_range(0..6) == 0;
         let (mut tb, mut ta) = (vec![], vec![]);
         for _ in 0..width {
             id += 1;
+            if level_less || rng.random_range(0..8) == 0 {
+                ev.chg.push(json!({"side": "n", "p": 1, "a": 0}));
+                ev.truth.push(json!({"bids": side_levels(&bids, true), "asks": side_levels(&asks, false), "seq": id}));
+                continue;
+            }
             let bid = rng.random_bool(0.5);
             let p = rng.random_range(1..=NPRICE);
             let a = if rng.random_range(0..3) == 0 { 0 } else { rng.random_range(1..10) };
@@ -1327,11 +1364,12 @@ fn random(args: &Args) {
                 chain.insert(n, 0);
             }
             let pre_frames = if mode == "init" { random_frames(&mut rng, &world) } else { json!([]) };
-            let (anomaly, emit) = bench.connect(&snap, &books, &pre_frames, &json!([]));
+            let order = order_of(None, seg, first, &mut rng);
+            let (anomaly, emit) = bench.connect(&snap, &books, &pre_frames, &json!([]), order);
             counts.connect += 1;
             counts.pre_frames += pre_frames.as_array().map(|a| a.len()).unwrap_or(0);
-            trace.line(&line("Connect", "", 0, anomaly.as_deref().map(|_| "Anomaly").unwrap_or(""), anomaly.as_deref().unwrap_or("none"),
-                             false, json!(0), snap.clone(), &pre_frames, &json!([]), &emit, bench.post()));
+            trace.line(&with_order(line("Connect", "", 0, anomaly.as_deref().map(|_| "Anomaly").unwrap_or(""), anomaly.as_deref().unwrap_or("none"),
+                             false, json!(0), snap.clone(), &pre_frames, &json!([]), &emit, bench.post()), order));
             if !first {
                 counts.reinit += 1;
             }
@@ -1357,7 +1395,11 @@ fn random(args: &Args) {
                 steps_n += 1;
                 let which = rng.random_range(0..plans.len());
                 let (name, k) = (plans[which].0, plans[which].1.remove(0));
-                let (out, err, term, emit) = bench.deliver(name, k as i64, &evs[name].events[k - 1]);
+                let ev = &evs[name].events[k - 1];
+                if ev["b"].as_array().is_some_and(|a| a.is_empty()) && ev["a"].as_array().is_some_and(|a| a.is_empty()) {
+                    counts.level_less += 1;
+                }
+                let (out, err, term, emit) = bench.deliver(name, k as i64, ev);
                 trace.line(&line("Deliver", name, k as i64, &out, &err, term, json!(0), json!(0), &json!([]), &json!([]), &emit, bench.post()));
                 match &out[..] {
                     "Dropped" => counts.dropped += 1,
